@@ -175,6 +175,7 @@ func (c *SingleDestinationRoundTripper) roundTrip(req *http.Request) (*http.Resp
 			select {
 			case <-earlyConn.HandshakeComplete():
 			case <-req.Context().Done():
+				closeRequestBody(req)
 				return nil, req.Context().Err()
 			}
 		}
@@ -188,9 +189,11 @@ func (c *SingleDestinationRoundTripper) roundTrip(req *http.Request) (*http.Resp
 		select {
 		case <-c.hconn.ReceivedSettings():
 		case <-connCtx.Done():
+			closeRequestBody(req)
 			return nil, context.Cause(connCtx)
 		}
 		if !c.hconn.Settings().EnableExtendedConnect {
+			closeRequestBody(req)
 			return nil, errors.New("http3: server didn't enable Extended CONNECT")
 		}
 	}
@@ -198,6 +201,7 @@ func (c *SingleDestinationRoundTripper) roundTrip(req *http.Request) (*http.Resp
 	reqDone := make(chan struct{})
 	str, err := c.hconn.openRequestStream(req.Context(), c.requestWriter, reqDone, c.DisableCompression, c.maxHeaderBytes())
 	if err != nil {
+		closeRequestBody(req)
 		return nil, err
 	}
 
@@ -272,6 +276,7 @@ func (c *SingleDestinationRoundTripper) sendRequestBody(str Stream, body io.Read
 
 func (c *SingleDestinationRoundTripper) doRequest(req *http.Request, str *requestStream) (*http.Response, error) {
 	if err := str.SendRequestHeader(req); err != nil {
+		closeRequestBody(req) // the goroutine that would close it is never started
 		return nil, err
 	}
 	if req.Body == nil {
